@@ -239,6 +239,10 @@ def build_wavelength(w):
 def flatten(result):
     """neutron_scattering result -> dict over OUTPUTS"""
     sld, xs, pen = result
+    if sld is None or xs is None:
+        from .runner import Violation
+        raise Violation("c03:none-with-data", "the calculator returned %r although every atom of the compound has "
+                        "neutron data in the table" % (result,))
     return dict(zip(OUTPUTS, list(sld) + list(xs) + [pen]))
 
 
